@@ -234,7 +234,8 @@ def kbmag_text(table, layout):
         ("alphabet", "rec(" + eol + ind * 2 + ("type%s\"identifiers\"," % asg) + eol +
          ind * 2 + ("size%s%d," % (asg, len(names))) + eol +
          ind * 2 + ("format%s\"dense\"," % asg) + eol +
-         ind * 2 + ("names%s%s" % (asg, lst(names))) + eol + ind * 2 + ")"),
+         ind * 2 + ("names%s%s" % (asg, lst(['"%s"' % x for x in names] if layout.get("quote_names")
+                                                 else names))) + eol + ind * 2 + ")"),
         ("states", "rec(" + eol + ind * 2 + ("type%s\"simple\"," % asg) + eol +
          ind * 2 + ("size%s%d" % (asg, n)) + eol + ind * 2 + ")"),
         ("flags", "[\"DFA\",\"minimized\",\"BFS\",\"accessible\",\"trim\"]"),
@@ -286,7 +287,7 @@ def _ints(s):
 def read_table(text):
     """Regex reader for the shipped word-acceptor files (first FSA record in the
     text).  Independent of geometry_tools.automata.gap_parse."""
-    names = [x.strip() for x in _NAMES_RE.search(text).group(1).split(",") if x.strip()]
+    names = [x.strip().strip('"') for x in _NAMES_RE.search(text).group(1).split(",") if x.strip()]
     initial = _ints(_INIT_RE.search(text).group(1))
     rows = [_ints(r) for r in _ROW_RE.findall(_TRANS_RE.search(text).group(1))]
     return {"names": names, "n": len(rows), "transitions": rows, "initial": initial}
